@@ -724,5 +724,6 @@ func main() {
 	partAES(r)
 	partAESModel(r)
 	partLongPW(r)
+	partCase(r)
 	partE2E(r)
 }
